@@ -44,8 +44,12 @@ pub enum Use {
     /// `Par2<A, T> { a: A, f: S<T, N> }`: the argument is the parent's SECOND parameter (`_1`)
     InGenericParent2,
     MapValue,
+    /// `f: Cow<'static, S<..>>`: reached through the transparent prelude Cow
+    InCow,
+    /// `f: Vec<Cow<'static, S<..>>>`
+    InVecCow,
 }
-pub const USES: [Use; 14] = [
+pub const USES: [Use; 16] = [
     Use::Root,
     Use::NamedField,
     Use::UnnamedField,
@@ -60,6 +64,8 @@ pub const USES: [Use; 14] = [
     Use::InGenericParent,
     Use::InGenericParent2,
     Use::MapValue,
+    Use::InCow,
+    Use::InVecCow,
 ];
 
 /// (source generics as written, target as written)
@@ -79,6 +85,8 @@ pub fn rule_forms() -> Vec<(&'static str, &'static str)> {
         ("<A, B>", "::t::Outer<::t::Mid<::t::In<B>>, A>"),
         ("<_0, _1>", "::t::X<_1, ::t::F, _0>"),
         ("<A, B, C>", "::t::X<C, B, A>"),
+        // a fixed extra argument whose LAST segment is spelled like a source parameter: not a parameter
+        ("<A, B>", "::t::X<A, ::m::A, B>"),
     ]
 }
 
@@ -159,6 +167,8 @@ impl SubstState {
                     Use::ArgOfOther => Ty::Named(D_HH, vec![s_ty]),
                     Use::ArgOfItself => self.s_ty(s_ty.clone(), n.clone()),
                     Use::MapValue => Ty::BTreeMap(b(U8), b(s_ty)),
+                    Use::InCow => Ty::Cow(b(s_ty)),
+                    Use::InVecCow => Ty::Vec(b(Ty::Cow(b(s_ty)))),
                     _ => s_ty,
                 };
                 let fields = match use_ {
